@@ -13,6 +13,11 @@ Implementation side (supporting evidence and the failing-input search; tolerance
            ensemble; conjugate symmetry, |F0| <= PD, norm <= PD after every step
   bfloat   BATCHED float gradients (k of shape (B > 1, d): shift-prune, kgrid) on non-real transverse states (generic RF
            phases, precession), >= 3 rounds: same checks per batch entry
+  ndbatch  n-D integer shifts with DEFAULT pruning on batches whose entries have different sparsity (batched pulses with
+           180 / 0 / 90 degrees in one entry and generic angles in the others, batched relaxation): norm == ensemble RMS and
+           F0 == ensemble mean per entry after EVERY operator, and equality (norm, F0, every phase state) with scalar re-runs
+  PD(p, reset=True/False) and RESET are placed MID-sequence (after shifts) in the signal, rms, ndcap, bfloat, ndbatch streams;
+           bounds are taken w.r.t. the current density, and the state after PD(reset=True) / RESET must BE the equilibrium
   info     with T2 > 2 T1 the bound can fail (recorded in the evidence, not a violation)
 plus the Interval tie of the operator arrays the theorems are about (T_op, Phi_op, E_op, P_op)."""
 import numpy as np
@@ -165,9 +170,13 @@ def gen_seq(rng, maxlen, bad_relax=False):
     seq = []
     nd = rng.choice([0, 0, 3])
     for _ in range(rng.randint(2, maxlen)):
-        k = rng.choice(["T", "T", "T", "E", "E", "S", "S", "SPOILER", "D", "Phi", "P"])
+        k = rng.choice(["T", "T", "T", "E", "E", "S", "S", "SPOILER", "D", "Phi", "P"] + ([] if bad_relax else ["PD", "RESET"]))
         if k == "T":
             seq.append("epg.T(%s, %s)" % (r(rng, 0, 180), r(rng, -180, 180)))
+        elif k == "PD":
+            seq.append("epg.PD(%s, reset=%s)" % (rng.choice([0.25, 0.5, 1.0, 1.5, 3.0]), rng.random() < 0.6))
+        elif k == "RESET":
+            seq.append("epg.RESET")
         elif k == "Phi":
             seq.append("epg.Phi(%s)" % r(rng, -180, 180))
         elif k == "P":
@@ -194,9 +203,13 @@ def gen_rms(rng, maxlen):
     pd = float(rng.choice([0.5, 1, 2]))
     ops = []
     for _ in range(rng.randint(1, maxlen)):
-        k = rng.choice(["T", "T", "E", "S", "S", "SPOIL"])
+        k = rng.choice(["T", "T", "T", "E", "S", "S", "S", "SPOIL", "PD", "RESET"])
         if k == "T":
             ops.append(["T", r(rng, 0, 180), r(rng, -180, 180)])
+        elif k == "PD":
+            ops.append(["PD", rng.choice([0.25, 0.5, 1.5, 3.0]), rng.random() < 0.6])
+        elif k == "RESET":
+            ops.append(["RESET"])
         elif k == "E":
             ops.append(["E", r(rng, 0.5, 60), r(rng, 100, 2000), r(rng, 10, 300), r(rng, -0.05, 0.05, 4)])
         elif k == "S":
@@ -232,28 +245,42 @@ def check_contract(case):
 
 
 def check_signal(case, strict=True):
-    """returns (problem, max |F0| / PD)"""
+    """returns (problem, max |F0| / bound).  The bound follows the density: PD(p, reset=True) and RESET put the state AT
+    equilibrium (norm == current density, bound := density); PD(p, reset=False) keeps the states (bound := max(bound, p))"""
     import epgpy as epg
     e = env()
-    pd = case["pd"]
-    sm = epg.StateMatrix(density=pd)
+    dens = bound = case["pd"]
+    sm = epg.StateMatrix(density=dens)
     worst = 0.0
+    bounds = []
     for i, x in enumerate(case["seq"]):
-        sm = eval(x, e)(sm)
+        op = eval(x, e)
+        sm = op(sm)
+        at_eq = False
+        if isinstance(op, epg.PD):
+            dens = float(np.ravel(op.pd)[0])
+            at_eq = bool(op.reset)
+            bound = dens if op.reset else max(bound, dens)
+        elif op is epg.RESET:
+            at_eq, bound = True, dens
+        bounds.append(bound)
         f0, nm = float(np.max(f0_abs(sm))), float(np.max(np.asarray(sm.norm)))
-        worst = max(worst, f0 / pd)
-        if strict and not leq(f0, pd):
-            return "|F0| = %.12g exceeds PD = %s after %s" % (f0, pd, case["seq"][:i + 1]), worst
-        if strict and not leq(nm, pd):
-            return "norm %.12g exceeds PD = %s after %s" % (nm, pd, case["seq"][:i + 1]), worst
+        worst = max(worst, f0 / bound)
+        if strict and at_eq and not (close(nm, dens) and close(np.max(dev_norm(sm)), 0)):
+            return "state after %s is not the equilibrium of density %s: norm %.12g, |states - equilibrium| %.3g (sequence %s)" % (
+                x, dens, nm, float(np.max(dev_norm(sm))), case["seq"][:i + 1]), worst
+        if strict and not leq(f0, bound):
+            return "|F0| = %.12g exceeds PD = %s after %s" % (f0, bound, case["seq"][:i + 1]), worst
+        if strict and not leq(nm, bound):
+            return "norm %.12g exceeds PD = %s after %s" % (nm, bound, case["seq"][:i + 1]), worst
     # the public entry point
     seq = []
     for x in case["seq"]:
         seq += [eval(x, e), epg.ADC]
-    vals = np.abs(np.asarray(epg.simulate(seq, init=epg.StateMatrix(density=pd))))
-    worst = max(worst, float(vals.max()) / pd)
-    if strict and not leq(vals.max(), pd):
-        return "|simulate(seq)| = %.12g exceeds PD = %s for %s" % (vals.max(), pd, case["seq"]), worst
+    vals = np.abs(np.asarray(epg.simulate(seq, init=epg.StateMatrix(density=case["pd"])))).reshape(len(bounds), -1).max(axis=1)
+    worst = max(worst, float(np.max(vals / np.array(bounds))))
+    if strict and not leq(vals, np.array(bounds)):
+        return "|simulate(seq)| = %s exceeds the density bound %s for %s" % (vals.tolist(), bounds, case["seq"]), worst
     return None, worst
 
 
@@ -278,6 +305,12 @@ def isochromats(case, N):
         elif o[0] == "S":
             mp = (mx + 1j * my) * z ** o[1]
             mx, my = mp.real, mp.imag
+        elif o[0] == "PD":
+            pd = o[1]
+            if o[2]:
+                mx, my, mz = np.zeros(N), np.zeros(N), np.full(N, float(pd))
+        elif o[0] == "RESET":
+            mx, my, mz = np.zeros(N), np.zeros(N), np.full(N, float(pd))
         else:
             mx, my = np.zeros(N), np.zeros(N)
     return mx, my, mz
@@ -287,7 +320,8 @@ def check_rms(case):
     import epgpy as epg
     sm = epg.StateMatrix(density=case["pd"])
     for o in case["ops"]:
-        op = {"T": lambda: epg.T(o[1], o[2]), "E": lambda: epg.E(*o[1:]), "S": lambda: epg.S(o[1]), "SPOIL": lambda: epg.SPOILER}[o[0]]()
+        op = {"T": lambda: epg.T(o[1], o[2]), "E": lambda: epg.E(*o[1:]), "S": lambda: epg.S(o[1]), "SPOIL": lambda: epg.SPOILER,
+              "PD": lambda: epg.PD(o[1], reset=o[2]), "RESET": lambda: epg.RESET}[o[0]]()
         sm = op(sm)
     ntot = sum(abs(o[1]) for o in case["ops"] if o[0] == "S")
     N = 2 * ntot + 3
@@ -328,16 +362,17 @@ def reached(ops, unit=1):
     return cum
 
 
-def ensemble_nd(ops, pd, unit=1):
+def ensemble_nd(ops, pd, unit=1, steps=False):
     """textbook Bloch isochromats on a regular grid of positions covering one full period of every wavenumber (multiples
     of `unit`), fine enough (N > 2 * max index per axis) for the grid means of M and |M|^2 to be exact.
-    Returns (RMS length, mean of Mx + i My)."""
+    Returns (RMS length, mean of Mx + i My) at the end, or the list of these after every operator (steps=True)."""
     dim = nd_dim(ops)
     cum = reached(ops, unit)
     axes = [2 * np.pi / unit * np.arange(2 * c + 3) / (2 * c + 3) for c in cum]
     X = np.stack(np.meshgrid(*axes, indexing="ij"), axis=-1).reshape(-1, dim)
     n = X.shape[0]
     mp, mz = np.zeros(n, complex), np.full(n, float(pd))
+    out = []
     for o in ops:
         if o[0] == "T":
             a, ph = np.deg2rad(o[1]), np.deg2rad(o[2])
@@ -356,9 +391,17 @@ def ensemble_nd(ops, pd, unit=1):
             mz = mz * np.exp(-tau / T1) + pd * (1 - np.exp(-tau / T1))
         elif o[0] == "SPOIL":
             mp = np.zeros(n, complex)
+        elif o[0] == "PD":
+            pd = o[1]
+            if o[2]:
+                mp, mz = np.zeros(n, complex), np.full(n, float(pd))
+        elif o[0] == "RESET":
+            mp, mz = np.zeros(n, complex), np.full(n, float(pd))
         else:
             mp = mp * np.exp(1j * (X @ np.array(kvec_of(o, dim), float)))
-    return float(np.sqrt(np.mean(np.abs(mp) ** 2 + mz ** 2))), complex(np.mean(mp))
+        if steps:
+            out.append((float(np.sqrt(np.mean(np.abs(mp) ** 2 + mz ** 2))), complex(np.mean(mp))))
+    return out if steps else (float(np.sqrt(np.mean(np.abs(mp) ** 2 + mz ** 2))), complex(np.mean(mp)))
 
 
 def symmetry_violation(sm):
@@ -419,22 +462,38 @@ def nd_build_op(o, nmax=None):
         return epg.C(int(o[1]), **kw)
     if k == "Sb":
         return epg.S([list(v) for v in o[1]], **kw)
+    if k == "Tb":
+        return epg.T(list(o[1]), list(o[2]) if isinstance(o[2], list) else o[2])
+    if k == "Eb":
+        return epg.E(o[1], list(o[2]), list(o[3]), o[4])
+    if k == "PD":
+        return epg.PD(o[1], reset=bool(o[2]))
+    if k == "RESET":
+        return epg.RESET
     raise ValueError(k)
 
 
-def gen_rounds(rng, nrounds, shift, relax_p=0.3):
-    """[pulse with generic phase, optional precession / relaxation (T2 <= 2 T1), shift] * nrounds, then a last pulse"""
+def gen_rounds(rng, nrounds, shift, relax_p=0.3, pulse=None, relax=None, reset_p=0.25):
+    """[pulse with generic phase, optional precession / relaxation (T2 <= 2 T1), shift] * nrounds, then a last pulse;
+    with probability reset_p one PD(p, reset=True/False) or RESET is placed mid-sequence, after phase states exist"""
+    pulse = pulse or (lambda: ["T", r(rng, 20, 160), r(rng, -180, 180)])
     ops = []
+    at = rng.randint(1, nrounds - 1) if (nrounds > 1 and rng.random() < reset_p) else None
     for i in range(nrounds):
-        ops.append(["T", r(rng, 20, 160), r(rng, -180, 180)])
+        if i == at:
+            ops.append(rng.choice([["PD", rng.choice([0.25, 0.5, 1.5, 3.0]), True], ["PD", rng.choice([0.25, 0.5, 1.5, 3.0]), False], ["RESET"]]))
+        ops.append(pulse())
         u = rng.random()
         if u < 0.35:
             ops.append(["P", r(rng, 0.5, 20), r(rng, -0.1, 0.1, 4)])
         elif u < 0.35 + relax_p:
-            T1 = r(rng, 100, 2000)
-            ops.append(["E", r(rng, 0.5, 60), T1, r(rng, 10, 2 * T1), r(rng, -0.05, 0.05, 4)])
+            if relax:
+                ops.append(relax())
+            else:
+                T1 = r(rng, 100, 2000)
+                ops.append(["E", r(rng, 0.5, 60), T1, r(rng, 10, 2 * T1), r(rng, -0.05, 0.05, 4)])
         ops.append(shift(i))
-    ops.append(["T", r(rng, 20, 160), r(rng, -180, 180)])
+    ops.append(pulse())
     return ops
 
 
@@ -458,7 +517,7 @@ def gen_ndcap(rng):
         return ["S", v]
     while True:
         ops = gen_rounds(rng, rng.randint(2, 4), shift)
-        if ops[[o[0] for o in ops].index("T") + 1][0] == "Sint" or [o for o in ops if o[0] in ("S", "C", "Sint")][0][0] == "Sint":
+        if [o for o in ops if o[0] in ("S", "C", "Sint")][0][0] == "Sint":
             continue
         cum = reached(ops)
         if np.prod([2 * c + 3 for c in cum]) <= 60000:
@@ -489,7 +548,7 @@ def gen_bfloat(rng):
         ok = consistent_coincidences([o[1] for o in ops if o[0] == "Sb"], unit)
         for b in range(B):
             cum = reached(batch_entry(ops, b), unit)
-            ok &= np.prod([2 * c + 3 for c in cum]) <= 12000
+            ok &= np.prod([2 * c + 3 for c in cum]) <= 6000
         if ok:
             break
         g0 = draw()
@@ -508,51 +567,143 @@ def consistent_coincidences(grads, unit):
 
 
 def batch_entry(ops, b):
-    return [["S", o[1][b]] if o[0] == "Sb" else o for o in ops]
+    """the unbatched program of batch entry b"""
+    out = []
+    for o in ops:
+        if o[0] == "Sb":
+            out.append(["S", o[1][b]])
+        elif o[0] == "Tb":
+            out.append(["T", o[1][b], o[2][b] if isinstance(o[2], list) else o[2]])
+        elif o[0] == "Eb":
+            out.append(["E", o[1], o[2][b], o[3][b], o[4]])
+        else:
+            out.append(o)
+    return out
+
+
+def gen_ndbatch(rng):
+    """n-D integer shifts with DEFAULT pruning on a batch whose entries have different sparsity: batched pulses with special
+    angles (180 / 0 / 90 in one entry, generic in the others), batched relaxation"""
+    B = rng.choice([2, 2, 3])
+    dim = rng.choice([1, 2, 3, 3])
+
+    def pulse():
+        u = rng.random()
+        if u < 0.25:
+            return ["T", r(rng, 20, 160), r(rng, -180, 180)]
+        al = [r(rng, 20, 160) for _ in range(B)]
+        al[rng.randrange(B)] = rng.choice([180, 180, 180, 0, 90])
+        if rng.random() < 0.3:
+            al[rng.randrange(B)] = rng.choice([180, 0, 90])
+        ph = rng.choice([0, 0, 90, r(rng, -180, 180)])
+        if rng.random() < 0.3:
+            ph = [rng.choice([0, 90, r(rng, -180, 180)]) for _ in range(B)]
+        return ["Tb", al, ph]
+
+    def relax():
+        T1 = [r(rng, 100, 2000) for _ in range(B)]
+        return ["Eb", r(rng, 0.5, 60), T1, [r(rng, 10, 2 * t) for t in T1], r(rng, -0.05, 0.05, 4)]
+
+    def shift(i):
+        if i > 0 and rng.random() < 0.15:
+            return ["Sint", rng.choice([1, -1])]
+        if rng.random() < 0.5:
+            return ["S", [rng.choice([1, 1, -1])] + [0] * (dim - 1)]
+        while True:
+            v = [rng.choice([0, 0, 1, 1, -1, 2]) for _ in range(dim)]
+            if any(v):
+                return ["S", v]
+    while True:
+        ops = gen_rounds(rng, rng.randint(2, 4), shift, pulse=pulse, relax=relax)
+        if not any(o[0] == "Tb" for o in ops) or [o for o in ops if o[0] in ("S", "Sint")][0][0] == "Sint":
+            continue
+        if np.prod([2 * c + 3 for c in reached(ops)]) <= 8000:
+            break
+    return {"kind": "ndbatch", "pd": float(rng.choice([0.5, 1, 1, 2])), "ops": ops, "batch": B, "cap": None, "reached": max(reached(ops)),
+            "opk": "B%dd%d" % (B, dim)}
+
+
+def state_map(sm, b):
+    """phase states of batch entry b as {coordinates: (F+, F-, Z)}, empty states dropped"""
+    st = np.asarray(sm.states)
+    st = np.broadcast_to(st, tuple(sm.shape) + st.shape[-2:]).reshape((-1,) + st.shape[-2:])
+    st = st[b if st.shape[0] > 1 else 0]
+    n = (st.shape[0] - 1) // 2
+    if sm.coords is None:
+        co = np.arange(-n, n + 1)[:, None]
+    else:
+        co = np.asarray(sm.coords)
+        co = co.reshape((-1,) + co.shape[-2:])
+        co = co[b if co.shape[0] > 1 else 0]
+    return {tuple(np.round(np.asarray(c, float) * 1e6).astype(np.int64).tolist()): row for c, row in zip(co, st) if np.abs(row).max() > 1e-9}
 
 
 def check_nd(case):
-    """shared by ndcap and bfloat: step the implementation, symmetry and |F0| <= PD after every step, ensemble at the end"""
+    """shared by ndcap, bfloat and ndbatch: step the implementation; after EVERY operator: conjugate symmetry, |F0| and norm
+    below the density bound, and (unless the cap truncates) norm == RMS length and F0 == mean of the isochromat ensemble,
+    per batch entry; for batched pulses also equality with the scalar re-run of every batch entry"""
     import epgpy as epg
     pd, ops = case["pd"], case["ops"]
     cap = case.get("cap")
+    kind = case["kind"]
     opts = {}
-    if case["kind"] == "bfloat":
+    if kind == "bfloat":
         opts["kgrid"] = case["kgrid"]
     if cap is not None and case["cap_where"] == "max_nstate":
         opts["max_nstate"] = cap
-    sm = epg.StateMatrix(density=pd, **opts)
     nmax = cap if (cap is not None and case["cap_where"] == "nmax") else None
+    B = case.get("batch", 1)
+    truncating = cap is not None and cap < case["reached"]
+    ens = [ensemble_nd(batch_entry(ops, b), pd, case.get("unit", 1), steps=True) for b in range(B)]
+    scalar = [epg.StateMatrix(density=pd, **opts) for b in range(B)] if kind == "ndbatch" else None
+    sm = epg.StateMatrix(density=pd, **opts)
+    dens = bound = pd
     for i, o in enumerate(ops):
         sm = nd_build_op(o, nmax)(sm)
+        if o[0] == "PD":
+            dens = o[1]
+            bound = dens if o[2] else max(bound, dens)
+        elif o[0] == "RESET":
+            bound = dens
+        where = "after step %d (%s) of %s" % (i, o, ops[:i + 1])
         why = symmetry_violation(sm)
         if why:
-            return "%s after step %d (%s)" % (why, i, o)
-        if not leq(np.max(f0_abs(sm)), pd):
-            return "|F0| = %.12g exceeds PD = %s after step %d (%s)" % (np.max(f0_abs(sm)), pd, i, o)
-        if not leq(np.max(np.asarray(sm.norm)), pd):
-            return "norm %.12g exceeds PD = %s after step %d (%s)" % (np.max(np.asarray(sm.norm)), pd, i, o)
-    B = case.get("batch", 1)
-    norm = np.broadcast_to(np.ravel(np.asarray(sm.norm)), (B,))
-    st = np.asarray(sm.states)
-    f0 = np.broadcast_to(np.ravel(st[..., sm.nstate, 0]), (B,))
-    truncating = cap is not None and cap < case["reached"]
-    for b in range(B):
-        rms, mean = ensemble_nd(batch_entry(ops, b) if case["kind"] == "bfloat" else ops, pd, case.get("unit", 1))
-        if truncating:
-            if not leq(norm[b], rms):
-                return "truncated run has norm %.12g above the ensemble RMS length %.12g" % (norm[b], rms)
-            continue
-        if not close(norm[b], rms):
-            return "norm = %.12g but the RMS magnetisation length of the isochromat ensemble is %.12g (batch entry %d, cap %s, reached index %s)" % (
-                norm[b], rms, b, cap, case.get("reached"))
-        if abs(f0[b] - mean) > 1e-9 * (1 + pd):
-            return "F0 = %s but the ensemble mean of Mx + i My is %s (batch entry %d)" % (f0[b], mean, b)
+            return "%s %s" % (why, where)
+        if not leq(np.max(f0_abs(sm)), bound):
+            return "|F0| = %.12g exceeds PD = %s %s" % (np.max(f0_abs(sm)), bound, where)
+        if not leq(np.max(np.asarray(sm.norm)), bound):
+            return "norm %.12g exceeds PD = %s %s" % (np.max(np.asarray(sm.norm)), bound, where)
+        norm = np.broadcast_to(np.ravel(np.asarray(sm.norm)), (B,))
+        f0 = np.broadcast_to(np.ravel(np.asarray(sm.states)[..., sm.nstate, 0]), (B,))
+        for b in range(B):
+            rms, mean = ens[b][i]
+            if truncating:
+                if i == len(ops) - 1 and not leq(norm[b], rms):
+                    return "truncated run has norm %.12g above the ensemble RMS length %.12g" % (norm[b], rms)
+                continue
+            if not close(norm[b], rms):
+                return "norm = %.12g but the RMS magnetisation length of the isochromat ensemble is %.12g (batch entry %d, cap %s, reached index %s) %s" % (
+                    norm[b], rms, b, cap, case.get("reached"), where)
+            if abs(f0[b] - mean) > 1e-9 * (1 + bound):
+                return "F0 = %s but the ensemble mean of Mx + i My is %s (batch entry %d) %s" % (f0[b], mean, b, where)
+        if scalar is not None:
+            for b in range(B):
+                scalar[b] = nd_build_op(batch_entry([o], b)[0], nmax)(scalar[b])
+                n1, g0 = float(np.ravel(scalar[b].norm)[0]), complex(np.ravel(np.asarray(scalar[b].states)[..., scalar[b].nstate, 0])[0])
+                if not close(norm[b], n1) or abs(f0[b] - g0) > 1e-9 * (1 + bound):
+                    return "batch entry %d: norm %.12g / F0 %s differ from the scalar re-run (%.12g / %s) %s" % (b, norm[b], f0[b], n1, g0, where)
+    if scalar is not None:
+        for b in range(B):
+            m1, m2 = state_map(sm, b), state_map(scalar[b], 0)
+            for k in set(m1) | set(m2):
+                d = np.abs(m1.get(k, np.zeros(3)) - m2.get(k, np.zeros(3))).max()
+                if d > 1e-9 * (1 + bound):
+                    return "batch entry %d: phase state %s differs from the scalar re-run by %.3g (program %s)" % (b, [x / 1e6 for x in k], d, ops)
     return None
 
 
 CHECKS = {"iso": check_iso, "contract": check_contract, "rms": check_rms, "signal": lambda c: check_signal(c)[0],
-          "normcorr": lambda c: check_normcorr(c), "ndcap": check_nd, "bfloat": check_nd}
+          "normcorr": lambda c: check_normcorr(c), "ndcap": check_nd, "bfloat": check_nd, "ndbatch": check_nd}
 
 
 def run_stream(ctx, name, gen, n):
@@ -669,12 +820,13 @@ def run(ctx):
     nok, nbad = tie.run(ctx, ents, 3 if quick else 40)
     n = 1 if quick else 10
     nb = 0
-    nb += run_stream(ctx, "iso", gen_iso, 400 * n)
-    nb += run_stream(ctx, "contract", gen_contract, 400 * n)
+    nb += run_stream(ctx, "iso", gen_iso, 300 * n)
+    nb += run_stream(ctx, "contract", gen_contract, 300 * n)
     nb += run_stream(ctx, "rms", lambda rng: gen_rms(rng, 10), 200 * n)
     nb += run_stream(ctx, "signal", lambda rng: gen_seq(rng, 12), 250 * n)
-    nb += run_stream(ctx, "ndcap", gen_ndcap, 160 * n)
-    nb += run_stream(ctx, "bfloat", gen_bfloat, 60 * n)
+    nb += run_stream(ctx, "ndcap", gen_ndcap, 140 * n)
+    nb += run_stream(ctx, "bfloat", gen_bfloat, 40 * n)
+    nb += run_stream(ctx, "ndbatch", gen_ndbatch, 100 * n)
     nb += norm_correspondence(ctx, 60 if quick else 2000)
     try:
         demo_T2_gt_2T1(ctx)
